@@ -1100,6 +1100,40 @@ impl VisitMut for SnippetInserter {
     }
 }
 
+/// counts the innermost statements whose text contains the snippet (ambiguity check for anchors)
+pub struct SnippetCounter {
+    pub snippet: String,
+    pub count: usize,
+}
+impl SnippetCounter {
+    fn block_has(&self, b: &Block) -> bool {
+        b.stmts.iter().any(|s| norm(&s.to_token_stream().to_string()).contains(&self.snippet))
+    }
+}
+impl<'ast> syn::visit::Visit<'ast> for SnippetCounter {
+    fn visit_block(&mut self, b: &'ast Block) {
+        for s in b.stmts.iter() {
+            let txt = norm(&s.to_token_stream().to_string());
+            if txt.contains(&self.snippet) {
+                // innermost? look for a nested block that also has it
+                struct Inner<'a> { c: &'a SnippetCounter, found: bool }
+                impl<'a, 'ast> syn::visit::Visit<'ast> for Inner<'a> {
+                    fn visit_block(&mut self, b: &'ast Block) {
+                        if self.c.block_has(b) { self.found = true; }
+                        syn::visit::visit_block(self, b);
+                    }
+                }
+                let mut inner = Inner { c: self, found: false };
+                syn::visit::visit_stmt(&mut inner, s);
+                if !inner.found {
+                    self.count += 1;
+                }
+            }
+        }
+        syn::visit::visit_block(self, b);
+    }
+}
+
 pub struct LoopBodyInserter {
     pub target: usize,
     pub at_end: bool,
